@@ -12,7 +12,7 @@ import iolog
 def c03(pid, tier, seed, scratch):
     bindir = C.build()
     X.ensure_shim()
-    n_hist, ops, max_points, per_point, cap = (4, 10, 60, 8, 700) if tier == "quick" else (30, 25, None, 12, 20000)
+    n_hist, ops, max_points, per_point, cap = (5, 10, 60, 8, 900) if tier == "quick" else (30, 25, None, 12, 20000)
     rep = K._report("crash-images[power-loss]", seed,
                     "same recorded histories as C02; per inode the content as of its last fsync plus the ordered un-synced writes/truncates, per directory the names as of the "
                     "last directory fsync plus pending name operations; at each crash point the fault choices {none survive, all survive, each single un-synced event dropped, "
@@ -26,18 +26,26 @@ def c03(pid, tier, seed, scratch):
         os.makedirs(wd, exist_ok=True)
         hseed = seed * 1000 + 300 + h
         wrap = h == n_hist - 1  # small incompressible records + frequent commits: the log wraps
+        # one history is steered so that a pending record ends in the last 48 bytes of the log region (no room for a sentinel)
+        edge = h == n_hist - 2
+        profile, ops_h = ("wrap", 40) if wrap else ("edge", 40) if edge else ("crash", ops)
         try:
-            rec = X.record(bindir, hseed, 40 if wrap else ops, wd, profile="wrap" if wrap else "crash")
+            rec = X.record(bindir, hseed, ops_h, wd, profile=profile)
         except C.Inconclusive as e:
             rep["inconclusive"].append({"case": f"history {hseed}", "reason": str(e)[:300]})
             continue
         K._count(rep, "histories")
         K._count(rep, "log_wraps_in_histories", X.count_wraps(rec["states"]))
         K._count(rep, "log_growths_in_histories", X.count_growths(rec["states"]))
+        edge_ops = set()
+        for e in rec.get("edge_ops", []):
+            edge_ops.update((e, e + 1))
+        if edge:
+            K._count(rep, "records_steered_to_end_in_last_48_bytes_of_log_region", len(rec.get("edge_ops", [])))
         imgs = []
-        for img in X.power_loss_images(rec, rng, per_point=per_point, max_points=max_points):
+        for img in X.power_loss_images(rec, rng, per_point=per_point, max_points=max_points, keep_ops=edge_ops):
             imgs.append(img)
-            if len(imgs) >= cap // n_hist:
+            if len(imgs) >= cap // n_hist and img["ctx"]["op_index"] not in edge_ops:
                 break
         obs = X.probe(bindir, [i["bytes"] for i in imgs], os.path.join(wd, "probe"))
         for img, o in zip(imgs, obs):
@@ -59,7 +67,7 @@ def c03(pid, tier, seed, scratch):
             fault_family = img["fault"].split("+")[0]
             key = K._key("C03", verdict, img["ctx"]) + (":synced-state" if fault_family in ("none-survive",) else "")
             K._violation(rep, key, f"history seed {hseed}, power loss after event {img['k']}, fault '{img['fault']}' ({img['unsynced']} un-synced events): {verdict[1]}",
-                         {"mode": "crash", "property": "C03", "seed": hseed, "ops": 40 if wrap else ops, "profile": "wrap" if wrap else "crash", "event_index": img["k"], "fault": img["fault"], "ctx": img["ctx"]})
+                         {"mode": "crash", "property": "C03", "seed": hseed, "ops": ops_h, "profile": profile, "event_index": img["k"], "fault": img["fault"], "ctx": img["ctx"]})
         if len(rep["samples"]) < 2 and imgs:
             i = imgs[len(imgs) // 2]
             rep["samples"].append({"history_seed": hseed, "images": len(imgs), "example": {"event": i["k"], "ctx": i["ctx"], "fault": i["fault"], "unsynced_events": i["unsynced"]}})
